@@ -120,6 +120,9 @@ type c15World struct {
 	undone  int
 	pulled  int
 	ticks   int
+	// restores: undo/redo calls so far whose change carries a restore-mode operation (the
+	// kind of operation a replica applies by re-creating nodes it has purged)
+	restores int
 	// ever: per replica, the identity of every text piece / tree node it ever held;
 	// recreated: some replica brought back, as a NEW node, one that it had purged (by its own
 	// undo/redo or by applying a peer's): the precise precondition of F-UNDO-AFTER-PURGE
@@ -130,9 +133,8 @@ type c15World struct {
 	// F-UNDO-AFTER-PURGE (a re-created node is PLACED by guessing). Content that is
 	// missing, doubled or different on one side is not that finding.
 	onlyPlacementDiffers bool
-	// editedAfterRecreation: an edit, undo or redo was made after an undo/redo whose restore
-	// some replica (possibly much later, when the change reaches it) applies by re-creating
-	// purged nodes. Ranges are resolved between two positions; where the replicas order the
+	// editedAfterRecreation: an edit, undo or redo was made after an undo/redo that carries a
+	// RESTORE (which some replica, possibly much later, applies by re-creating purged nodes). Ranges are resolved between two positions; where the replicas order the
 	// content differently the same range covers different nodes, and the difference is no
 	// longer one of placement only.
 	editedAfterRecreation bool
@@ -523,7 +525,7 @@ func (w *c15World) do(st c15Step) bool {
 	d := w.docs[st.W]
 	switch st.T {
 	case "edit":
-		if w.undone > 0 {
+		if w.restores > 0 {
 			w.editedAfterRecreation = true
 		}
 		if w.rp.GC && strings.HasPrefix(st.E.Op, "arr.") {
@@ -548,7 +550,7 @@ func (w *c15World) do(st c15Step) bool {
 		if (st.T == "undo" && !d.CanUndo()) || (st.T == "redo" && !d.CanRedo()) {
 			return false
 		}
-		if w.undone > 0 {
+		if w.restores > 0 {
 			w.editedAfterRecreation = true
 		}
 		w.steps = append(w.steps, st)
@@ -578,6 +580,22 @@ func (w *c15World) do(st c15Step) bool {
 			}
 			for _, c := range cs[nBefore:] {
 				w.undoChanges[fmt.Sprintf("%s/%d", c.ID().ActorID().String(), c.ID().ClientSeq())] = true
+				for _, op := range c.Operations() {
+					// what an identity-preserving reverse REVIVES depends on its direction:
+					// restoreSpans in restore mode, retombstoneSpans in retombstone mode
+					switch o := op.(type) {
+					case *operations.Edit:
+						if o.RestoreMode() == crdt.RestoreModeRestore && len(o.RestoreSpans()) > 0 ||
+							o.RestoreMode() == crdt.RestoreModeRetombstone && len(o.RetombstoneSpans()) > 0 {
+							w.restores++
+						}
+					case *operations.TreeEdit:
+						if o.RestoreMode() == crdt.RestoreModeRestore && len(o.RestoreSpans()) > 0 ||
+							o.RestoreMode() == crdt.RestoreModeRetombstone && len(o.RetombstoneSpans()) > 0 {
+							w.restores++
+						}
+					}
+				}
 			}
 		}
 		if a, b := d.Root().Marshal(), d.Marshal(); a != b {
